@@ -311,6 +311,7 @@ async fn run_case(line: &str) -> String {
         "rdr" => run_rdr(&tok).await,
         "cl" => client::run_cl(&tok).await,
         "life" => life::run_life(&tok).await,
+        "slife" => life::run_slife(&tok).await,
         "net" => net::run_net(&tok).await,
         "tls" => tlsgrid::run_tls(&tok).await,
         other => format!("unknown-suite {other}"),
@@ -353,7 +354,7 @@ fn main() {
         }
         // a fresh paused-clock current-thread runtime per case: cases cannot influence each other
         // network suites use real sockets and therefore the real clock
-        let real_time = line.starts_with("life ") || line.starts_with("net ") || line.starts_with("tls ");
+        let real_time = line.starts_with("life ") || line.starts_with("slife ") || line.starts_with("net ") || line.starts_with("tls ");
         let rt = tokio::runtime::Builder::new_current_thread()
             .enable_all()
             .start_paused(!real_time)
